@@ -2660,13 +2660,13 @@ func (s *ShowMeasurementsStatement) String() string {
 		if s.WildcardDatabase {
 			_, _ = buf.WriteString("*")
 		} else {
-			_, _ = buf.WriteString(s.Database)
+			_, _ = buf.WriteString(QuoteIdent(s.Database))
 		}
 		if s.WildcardRetentionPolicy {
 			_, _ = buf.WriteString(".*")
 		} else if s.RetentionPolicy != "" {
 			_, _ = buf.WriteString(".")
-			_, _ = buf.WriteString(s.RetentionPolicy)
+			_, _ = buf.WriteString(QuoteIdent(s.RetentionPolicy))
 		}
 	}
 	if s.Source != nil {
